@@ -114,36 +114,45 @@ def enumerate_cases(tier, broken=False):
         yield _partition_case(rng, rng.choice(["ABM", "ABM", "DEVS"]))
 
 
-RULE = ("histories = one simulator after setup, 0-6 events scheduled up front (with user code that schedules further events, "
-        "cancels, drops), for ABMSimulator a model.step script that schedules events at some ticks, then [0,T] (T <= 12 ticks) cut "
-        "into consecutive run_until / run_for / run_next_event pieces, optionally a second round after more scheduling; plus "
-        "every composition of T <= 4 (6 thorough) ticks into run_until/run_for pieces with run_next_event calls in between on two "
-        "fixed event sets; every block of run calls is replayed in one piece on a fresh simulator; "
+RULE = ("histories = one ABMSimulator (65%) / DEVSimulator after setup, 0-6 events scheduled up front (with user code that schedules further events, "
+        "cancels, drops), for ABMSimulator a model.step script that schedules events at some ticks, then [0,T] (T <= 12 ticks) cut into consecutive "
+        "run_until / run_for / run_next_event pieces, optionally a second round after more scheduling (500 quick / 30000 thorough); plus every "
+        "composition of T <= 4 (6 thorough) ticks into run_until/run_for pieces with run_next_event calls in between on two fixed event sets; every "
+        "block of run calls is replayed in one piece on a fresh simulator (implementation against implementation). The driver is the one of C14 "
+        "(falsy holder objects and model, four kinds of callables, shared function_kwargs, keyword and positional spellings, a second simulator "
+        "consuming ids); the life-cycle, exception, big-int and float families of C14 carry the C15 oracle keys too. "
         "non-trivial = at least 3 ops and one run call that executed something; distinct = by SHA1 of the history")
 TRUSTED_BASE = [
     "Coq 8.16.1 kernel (coqc); vm_compute for finite facts and for evaluating the model in the correspondence",
-    "no axioms: Print Assumptions reports 'Closed under the global context' for every C15 theorem",
-    "harness/pyexpr.py + harness/tables/devs_code.py (code-level T1): guards, time arithmetic and loop decisions of the simulators and the event list translated to Gallina; their statement skeletons",
-    "harness/tables/devs.py (T1): Priority values, the SimulationEvent.__lt__ tuple, the priority of model.step at every site that schedules it",
-    "harness/props/devs_common.py driver+observer+Gallina printer (T2, differential testing, not a proof)",
-    "Model/Devs.v is a hand transcription of eventlist.py/simulator.py and of Model._wrapped_step (steps += 1, then user step); "
-    "CPython heapq trusted to be a priority queue w.r.t. __lt__",
+    "no axioms: Print Assumptions reports 'Closed under the global context' for all 26 theorems of Properties/C15.v",
+    "harness/tables/devs.py (T1, tables): Priority values, the __lt__ tuple, the priority of model.step at every site that schedules it, schedule_event_next_tick's delta 1, "
+    "the run_for literal of solara's SimulatorController.do_step",
+    "harness/pyexpr.py + harness/tables/devs_code.py (T1, code level): the run_until decision of both classes, run_for's horizon, ABMSimulator._execute_event's "
+    "re-scheduling test translated to Gallina; statement skeleton of the loops, setup, reset (modulo local names, messages, docstrings)",
+    "harness/props/devs_common.py driver + observer + Gallina printer (T2, differential testing, not a proof)",
+    "Model/Devs.v + Model/DevsLife.v are hand transcriptions of eventlist.py / simulator.py and of Model._wrapped_step (steps += 1, then the user step), tied by T1/T2; "
+    "CPython heapq is abstracted as an ordered list (refinement proved under C14)",
     "Uint63 primitive hash only in scratch Cases files, never under a theorem",
 ]
 ASSUMPTIONS = [
-    "ABMSimulator horizons are integers (the type the class declares) and not before the current time",
-    "all times and deltas are multiples of 1/8 with small numerators (exact in binary64)",
+    "ABMSimulator horizons are integers (the type the class declares) and not before the current time; the boundary is documented by C15_boundary_non_integer_horizon",
+    "all times and deltas of the model are multiples of 1/8 (ints and dyadic floats: exact)",
     "user code never cancels the pending model.step event (it has no handle on it) and never schedules model.step itself",
     "after a run_next_event that stops inside a tick the statement is: steps = number of step calls and clock-1 <= steps <= clock",
+    "every setup() attaches a new model (as the visualisation does after reset()), so model.steps restarts at 0 with it",
 ]
-LEVEL_TEXT = ("Machine-checked Coq theorems over the Gallina transcription of the simulators (after fix C15-1): for every history, "
-              "run_until t2 after run_until t1 (now <= t1 <= t2) is run_until t2 - same state, concatenated log - and run_next_event "
-              "followed by run_until t equals run_until t when the next event is not after t, hence every partition of a run into "
-              "run_until/run_for/run_next_event pieces equals the run in one piece (C15_chunking); under ABMSimulator exactly one "
-              "model.step event is pending, for tick steps+1, at the priority read from the source, so that after every run_until/"
-              "run_for to an integer horizon steps = clock, and clock-1 <= steps <= clock after run_next_event. T1/T2/oracle as for C14; "
-              "the oracle additionally replays every block of run calls in one piece on the implementation.")
-LEVEL_NOTE = ("Theorems are about the model; solara's use of run_for(1) is covered as the partition into unit pieces. "
-              "Trusted: Coq kernel, the T1 extractors, the driver/observer. No axioms.")
-TECHNIQUE = "Coq proof (loop-fusion lemma by induction on fuel, step invariant over histories) + source-regenerated tables + vm_compute correspondence"
+LEVEL_TEXT = ("26 machine-checked Coq theorems (6 examples) over the Gallina transcription of the simulators (after fix C15-1), closed under the global context, for all "
+              "histories and user code: run_until t2 after run_until t1 (t1 <= t2) is run_until t2 - same state, concatenated log - and run_next_event followed by "
+              "run_until t equals run_until t when the next event is not after t and does not raise, hence every partition of a run into run_until / run_for / "
+              "run_next_event pieces equals the run in one piece (C15_chunking, C15_run_for_pieces, C15_viz_do_step with the run_for literal read from solara_viz.py); "
+              "under ABMSimulator exactly one model.step event is pending, for tick steps+1, at the priority read from the source, over every life cycle "
+              "(reset + setup included), so that steps = clock after every run_until / run_for to an integer horizon (C15_step_every_tick, "
+              "C15_lifecycle_steps_eq_clock), clock-1 <= steps <= clock after run_next_event, each tick is stepped exactly once at its own time, and nothing of lower "
+              "priority runs at a tick before its step; an interrupted run (user exception) keeps the step invariant. Code-level T1: the run_until decision, run_for and "
+              "the re-scheduling test are regenerated from the source and proved equal to the model's (C15_source_*, C15_chunking_of_source, "
+              "C15_step_resched_of_source). T2 / oracle as for C14; the oracle additionally replays every block of run calls in one piece on the implementation.")
+LEVEL_NOTE = ("Theorems are about the model; solara's use of run_for(1) is covered by C15_viz_do_step / C15_viz_steps. Defect #22 of the original tree "
+              "(run_next_event did not re-schedule model.step) is fixed in /repo; none known. Trusted: Coq kernel, the T1 extractors / translator, the driver and observer. No axioms.")
+TECHNIQUE = ("Coq proof (loop-fusion lemma by induction on fuel, step invariant over histories and life cycles; closed under the global context) + tables and "
+             "code regenerated from the source with bridge lemmas + vm_compute correspondence + metamorphic replay on the implementation")
 DESIGN_REF = "DESIGN.md section 4, C15"
